@@ -218,6 +218,13 @@ class Ctx:
         self.measures = {}
         self.rng = random.Random(seed)
         self.jobs = int(os.environ.get("VERIF_JOBS", "0")) or (os.cpu_count() or 4)
+        if "VERIF_JOBS" not in os.environ:
+            # an overloaded machine (many checks at once) only thrashes with a full-width pool each
+            try:
+                if os.getloadavg()[0] > 4 * (os.cpu_count() or 4):
+                    self.jobs = max(2, self.jobs // 4)
+            except OSError:
+                pass
         base = os.environ.get("VERIF_SCRATCH") or str(ROOT / ".scratch")
         self.scratch = pathlib.Path(base) / f"{prop_id}-{os.getpid()}"
         self.scratch.mkdir(parents=True, exist_ok=True)
